@@ -255,4 +255,89 @@ static void ffc_gen(Ctx& ctx) {
     });
 }
 
+// ------------------------------------------------------------------------------------------- shared plans whose creator has ended
+// "Transform plan objects may additionally be shared": also when the thread that constructed them no longer exists (its
+// thread_local state - plan caches, any table a plan might point into - has been destroyed).  A creator thread builds plans of
+// every kind and ends; the allocator is churned; then 2..8 threads solve on the shared objects at once.  Oracle: bit-identical to
+// plans built and used by one fresh thread.
+VK_SUB(ended, "plans_from_ended_thread");
+static void ended_check(const Json& c, Out& o) {
+    const std::vector<int> lens = c.ints("lens");
+    const int T = c.geti("T"), churn = c.geti("churn");
+    const uint64_t seed = c.getu("seed");
+    struct Plans { std::vector<std::shared_ptr<FftPlan>> c; std::vector<std::shared_ptr<FftPlanR>> r; std::vector<std::shared_ptr<IfftPlan>> ic; std::vector<std::shared_ptr<IfftPlanR>> ir; std::vector<std::shared_ptr<CztPlan>> z; };
+    auto build = [&](Plans& P) {
+        for (int n : lens) {
+            P.c.push_back(std::make_shared<FftPlan>(n));
+            P.r.push_back(std::make_shared<FftPlanR>(n));
+            P.ic.push_back(std::make_shared<IfftPlan>(n));
+            P.ir.push_back(std::make_shared<IfftPlanR>(n + (n & 1)));
+            P.z.push_back(std::make_shared<CztPlan>(n, n, expj(-2 * pi * 0.9 / n), cmplx_t(1.0)));
+        }
+    };
+    auto use = [&](const Plans& P, int t, std::vector<uint64_t>& out) {
+        for (size_t i = 0; i < lens.size(); ++i) {
+            const int n = lens[i];
+            const uint64_t tag = mix(seed, uint64_t(t) * 64 + i);
+            out.push_back(hb(P.c[i]->solve(cin(n, tag))));
+            out.push_back(hb((*P.r[i])(rin(n, tag))));
+            out.push_back(hb(P.ic[i]->solve(cin(n, tag + 1))));
+            out.push_back(hb(P.ir[i]->solve(cin((n + (n & 1)) / 2 + 1, tag + 2))));
+            out.push_back(hb(P.z[i]->solve(cin(n, tag + 3))));
+        }
+    };
+    for (int round = 0, rounds = replay_rounds(5); round < rounds && !o.failed; ++round)
+    run_forked(o, 300.0, [&](Out& co) {
+        Plans P;
+        { std::thread creator([&]() { build(P); }); creator.join(); }
+        for (int k = 0; k < churn; ++k) { (void)fft(cin(16 + 13 * k, seed + uint64_t(k))); (void)xcorr(rin(20 + k, seed), rin(7 + k, seed + 1)); (void)window::kaiser(30 + k, 2.0 + k); }
+        std::vector<std::vector<uint64_t>> got(static_cast<size_t>(T)), ref(static_cast<size_t>(T));
+        std::vector<std::string> errs(static_cast<size_t>(T));
+        std::atomic<int> ready{0};
+        std::atomic<bool> go{false};
+        std::vector<std::thread> th;
+        for (int t = 0; t < T; ++t)
+            th.emplace_back([&, t]() {
+                ready.fetch_add(1);
+                while (!go.load()) std::this_thread::yield();
+                try { use(P, t, got[size_t(t)]); } catch (const std::exception& e) { errs[size_t(t)] = e.what(); }
+            });
+        while (ready.load() < T) std::this_thread::yield();
+        go.store(true);
+        for (auto& x : th) x.join();
+        { std::thread r([&]() { Plans Q; build(Q); for (int t = 0; t < T; ++t) use(Q, t, ref[size_t(t)]); }); r.join(); }
+        for (int t = 0; t < T && !co.failed; ++t) {
+            if (!errs[size_t(t)].empty()) { co.fail("mt:exception", fmt("thread %d threw: %s", t, errs[size_t(t)].c_str())); break; }
+            for (size_t i = 0; i < ref[size_t(t)].size(); ++i)
+                if (i >= got[size_t(t)].size() || got[size_t(t)][i] != ref[size_t(t)][i]) {
+                    static const char* kinds[5] = {"FftPlan", "FftPlanR", "IfftPlan", "IfftPlanR", "CztPlan"};
+                    co.fail("mt:plan-from-ended-thread", fmt("thread %d: %s(%d) built by a thread that has ended gives a result different from a plan built and used by one thread", t, kinds[i % 5], lens[i / 5]));
+                    break;
+                }
+        }
+    });
+    o.evals = long(lens.size()) * 5 * T;
+    uint64_t k = mix(seed, uint64_t(T));
+    for (int n : lens) k = mix(k, uint64_t(n));
+    o.nontrivial(k);
+    o.label(churn ? "allocator-churn:yes" : "allocator-churn:no");
+    o.label(fmt("threads:%s", T <= 2 ? "2" : T <= 4 ? "3-4" : "5-8"));
+}
+static void ended_gen(Ctx& ctx) {
+    ctx.no_shrink = true;
+    ctx.rc("random", ctx.by_tier(4800, 48000), [&]() {
+        std::vector<int> lens;
+        for (int i = pick(1, 4); i > 0; --i) {
+            switch (pick(0, 4)) {
+            case 0: lens.push_back(pick(3, 41)); break;
+            case 1: lens.push_back(one_of(std::vector<int>{5, 7, 11, 13, 17, 31, 37, 41, 43, 47, 97, 127})); break;
+            case 2: lens.push_back(1 << pick(1, 9)); break;
+            case 3: lens.push_back(one_of(std::vector<int>{12, 15, 35, 60, 105, 120, 124, 243, 360, 94, 86})); break;
+            default: lens.push_back(pick(3, 300));
+            }
+        }
+        return Json::object().set("lens", lens).set("T", pick(2, 8)).set("churn", pick(0, 2) == 0 ? 0 : pick(1, 10)).set("seed", (long long)(seed64() >> 12));
+    });
+}
+
 VK_MAIN("C09")
